@@ -209,7 +209,76 @@ def run_case(case):
     P["sliced"] = int("slice" in es or "index" in es)
     P["concatenated"] = int("add" in es)
 
+    def real_port_algebra():
+        """The same expression over real ports (SingleEndedPort / DifferentialPort on IOPorts): widths, directions and
+        inversion masks must compose exactly as for simulation ports (rides along: no netlist is built)."""
+        from amaranth.hdl import IOPort
+        for kindname in ("single", "diff"):
+            rp = []
+            for i, b in enumerate(bases):
+                inv = [bool((b["invert"] >> k) & 1) for k in range(b["width"])]
+                if kindname == "single":
+                    rp.append(io.SingleEndedPort(IOPort(b["width"], name="io%d" % i), invert=inv, direction=b["dir"]))
+                else:
+                    rp.append(io.DifferentialPort(IOPort(b["width"], name="p%d" % i), IOPort(b["width"], name="n%d" % i),
+                                                  invert=inv, direction=b["dir"]))
+            q = realise(config["expr"], rp)
+            if len(q) != n or tuple(q.invert) != tuple(b[2] for b in bits) or q.direction.value != d:
+                raise Violation("real_port_algebra", -1, {"kind": kindname, "len": len(q), "invert": [bool(x) for x in q.invert],
+                                                          "direction": q.direction.value,
+                                                          "expected": [n, [b[2] for b in bits], d]})
+        P["real_port_algebra"] = P.get("real_port_algebra", 0) + 1
+        # every real port bit may be used by one buffer only: a second buffer on an overlapping slice must be diagnosed,
+        # whatever its kind and direction; one buffer alone must convert
+        if n >= 1 and all(b["width"] > 0 for b in bases):
+            # (zero-width IOPorts are left out: the RTLIL backend cannot emit them at all - noted in DESIGN.md section 11,
+            # it belongs to the unclaimed structural clause)
+            from amaranth.hdl import Module, DriverConflict, Signal
+            from amaranth.back import rtlil
+            rp = [io.SingleEndedPort(IOPort(b["width"], name="io%d" % i),
+                                     invert=[bool((b["invert"] >> k) & 1) for k in range(b["width"])], direction=b["dir"])
+                  for i, b in enumerate(bases)]
+            q = realise(config["expr"], rp)
+
+            def design(two):
+                m = Module()
+                m.submodules.b0 = b0 = io.Buffer(bdir, q)
+                outs = []
+                if bdir != "i":
+                    o_ = Signal(n, name="o_")
+                    oe_ = Signal(name="oe_")
+                    m.d.comb += [b0.o.eq(o_), b0.oe.eq(oe_)]
+                    outs += [o_, oe_]
+                if bdir != "o":
+                    outs.append(b0.i)
+                if two:
+                    m.submodules.b1 = b1 = io.Buffer(bdir, q[0:1])
+                    if bdir != "i":
+                        m.d.comb += [b1.o.eq(o_[0]), b1.oe.eq(oe_)]
+                    if bdir != "o":
+                        outs.append(b1.i)
+                return m, outs
+            m1, outs1 = design(False)
+            rtlil.convert(m1, ports=outs1)
+            m2, outs2 = design(True)
+            try:
+                rtlil.convert(m2, ports=outs2)
+            except DriverConflict:
+                P["double_use_diagnosed"] = P.get("double_use_diagnosed", 0) + 1
+            else:
+                raise Violation("port_bit_used_by_two_buffers", -1, {"dir": bdir, "width": n})
+        # Input + Output must be refused for every port kind
+        for mk in (lambda dd, nm: io.SingleEndedPort(IOPort(1, name=nm), direction=dd),
+                   lambda dd, nm: io.DifferentialPort(IOPort(1, name=nm + "p"), IOPort(1, name=nm + "n"), direction=dd),
+                   lambda dd, nm: io.SimulationPort(dd, 1, name=nm)):
+            try:
+                mk("i", "a") + mk("o", "b")
+            except ValueError:
+                continue
+            raise Violation("input_plus_output_accepted", -1, {})
+
     def pre():
+        real_port_algebra()
         # static algebra checks on the composed port
         if len(port) != n:
             raise Violation("composed_width", -1, {"len": len(port), "expected": n})
